@@ -1338,3 +1338,33 @@ package router
 //@   props C18
 //@   captures r != nil && goodbye != nil
 //@   callsite EndRecv : [never-the-excluded-or-the-meta-session] sid != exclude && arg0 != r.metaSess && sid in r.clients && arg0 == r.clients[sid] && arg1 == goodbye
+
+// Session details handed to meta events and wamp.session.get never contain the
+// transport's authentication dictionary, and the session's own details are not
+// changed by producing the cleaned copy.
+//@ pred hasAuthDict(t wamp.Dict) = "auth" in t && is(t["auth"], wamp.Dict) && t["auth"].(wamp.Dict) != nil
+
+//@ func (r *realm) cleanSessionDetails
+//@   props C12
+//@   requires r != nil
+//@   modifies fresh map[string]any
+//@   ensures [no-transport-auth-dictionary] result != nil && "transport" in result && is(result["transport"], wamp.Dict) ==> !hasAuthDict(result["transport"].(wamp.Dict))
+//@   loop range stdItems
+//@     invariant [copied-from-details] clean != nil && fresh(clean) && (forall k string :: k in clean ==> k in details && clean[k] == details[k])
+//@   loop range r.metaIncDetails
+//@     invariant [copied-from-details] clean != nil && fresh(clean) && (forall k string :: k in clean ==> k in details && clean[k] == details[k])
+//@   loop range transDict
+//@     invariant [auth-left-out] altTrans == nil || (fresh(altTrans) && !("auth" in altTrans))
+
+// What session meta events and wamp.session.get hand out is the cleaned copy.
+//@ func (r *realm) onJoin
+//@   props C12
+//@   requires r != nil && sess != nil
+//@   callsite cleanSessionDetails : [cleaned-from-the-session-details] arg0 == r && arg1 == sess.Details
+//@   sendsite meta wamp.Message : [on-join-carries-the-cleaned-details] is(m, *wamp.Publish) && m.(*wamp.Publish).Topic == wamp.MetaEventSessionOnJoin && len(m.(*wamp.Publish).Arguments) == 1 && m.(*wamp.Publish).Arguments[0] == box(output)
+
+//@ func (r *realm) sessionGet
+//@   props C12 C18
+//@   requires r != nil && msg != nil
+//@   callsite cleanSessionDetails : [cleaned-from-the-session-details] arg0 == r && arg1 == sess.Details
+//@   returnsite : [answer-carries-the-cleaned-details] is(result, *wamp.Yield) ==> len(result.(*wamp.Yield).Arguments) == 1 && result.(*wamp.Yield).Arguments[0] == box(output)
